@@ -52,7 +52,15 @@ impl Gen {
             None if self.text.is_some() => {
                 let t = self.text.as_ref().unwrap();
                 let mut v = vec![];
-                if t.contains("  let l") || t.contains("build(") {
+                let boxed = if self.family == "FB" {
+                    // on the unchanged tree a value built in dsp is leaked as soon as it has two or more cells or is used
+                    // in any way (passed on, matched, captured, put into a tuple); a one-cell value that is only bound
+                    // is released correctly
+                    self.ops.iter().any(|o| !(o.starts_with("elements are") || o == "new one-cell list" || o == "sum(global list)"))
+                } else {
+                    t.contains("  let l") || t.contains("build(") || t.contains("let inner = Cons")
+                };
+                if boxed {
                     v.push("boxed_value_created_per_dsp_call".to_string());
                 }
                 if t.contains("| | sum(") || t.contains("let f = |v|") || t.contains("apply(|v|") {
@@ -449,6 +457,7 @@ fn fs_radix() -> u64 {
         + 2                             // arithmetic on last
         + 3                             // nested block with two stateful lets / dsp self / block shadowing a name
         + 3                             // assignments whose right-hand side is a stateful call (plain, mem, under if)
+        + 3                             // a delay written directly in an if arm (taken on some samples only)
 }
 pub fn fs_count(k: u32) -> u64 {
     seq_count(fs_radix(), k)
@@ -600,6 +609,21 @@ fn fs_stmt(c: &mut Ctx, mut o: u64) -> Option<()> {
                     c.stmts.push(S::Expr(E::If(Box::new(var(DSP_IN)), Box::new(t), Box::new(e))));
                 }
             }
+            c.vars.push(v);
+        }
+        6..=8 => {
+            // a delay written directly in an arm of an `if` of this function: on the samples on which the arm is not
+            // taken, the function's later delays still have to find their own cell
+            let v = c.fresh();
+            let (s1, s2) = (c.sites.next(), c.sites.next());
+            let d3 = E::Delay(3.0, Box::new(var(DSP_IN)), Box::new(num(1.0)), s1);
+            let (e, what) = match o {
+                6 => (iff(var(DSP_IN), d3, num(0.0)), "if (x) delay(3,x,1) else 0"),
+                7 => (iff(bin("%", E::Now, num(2.0)), num(0.0), d3), "if (now % 2) 0 else delay(3,x,1)"),
+                _ => (iff(var(DSP_IN), d3, E::Delay(10.0, Box::new(var(DSP_IN)), Box::new(num(5.0)), s2)), "if (x) delay(3,x,1) else delay(10,x,5)"),
+            };
+            c.ops.push(what.into());
+            c.stmts.push(let_(&v, e));
             c.vars.push(v);
         }
         _ => {
@@ -1598,17 +1622,23 @@ impl FtSpec {
 
 // ================================================================== FB: boxed recursive variants (text templates)
 
-const FB_RADIX: u64 = 12;
+const FB_RADIX: u64 = 14;
+/// every operation sequence in two variants: the list element is a float, or a pair of floats (a multi-word payload
+/// element in front of the recursive reference)
 pub fn fb_count(k: u32) -> u64 {
-    seq_count(FB_RADIX, k)
+    2 * seq_count(FB_RADIX, k)
 }
 pub fn fb_decode(idx: u64, k: u32) -> Option<Gen> {
-    let digits = seq_decode(idx, FB_RADIX, k);
+    let wide = idx % 2 == 1;
+    let digits = seq_decode(idx / 2, FB_RADIX, k);
+    // element written from a float expression, the element type, and the float value of a bound element `h`
+    let el = |a: &str| if wide { format!("({a}, 1.0)") } else { a.to_string() };
+    let (elty, hval) = if wide { ("(float, float)", "(h.0 + h.1)") } else { ("float", "h") };
     let mut lists: Vec<String> = vec![];
     let mut floats: Vec<String> = vec!["x".into()];
     let mut clos: Vec<String> = vec![];
     let mut body = String::new();
-    let mut ops = vec![];
+    let mut ops = vec![if wide { "elements are pairs".to_string() } else { "elements are floats".to_string() }];
     let mut n = 0;
     let mut use_global = false;
     for d in digits {
@@ -1616,13 +1646,13 @@ pub fn fb_decode(idx: u64, k: u32) -> Option<Gen> {
         let lastf = floats.last().unwrap().clone();
         match d {
             0 => {
-                body.push_str(&format!("  let l{n} = Cons({lastf}, Cons(1.0, Nil))\n"));
+                body.push_str(&format!("  let l{n} = Cons({}, Cons({}, Nil))\n", el(&lastf), el("1.0")));
                 lists.push(format!("l{n}"));
                 ops.push("new list".to_string());
             }
             1 => {
                 let l = lists.last()?.clone();
-                body.push_str(&format!("  let l{n} = Cons(2.0, {l})\n"));
+                body.push_str(&format!("  let l{n} = Cons({}, {l})\n", el("2.0")));
                 lists.push(format!("l{n}"));
                 ops.push("cons onto last (sharing)".into());
             }
@@ -1634,7 +1664,7 @@ pub fn fb_decode(idx: u64, k: u32) -> Option<Gen> {
             }
             3 => {
                 let l = lists.last()?.clone();
-                body.push_str(&format!("  let s{n} = match {l} {{\n    Nil => 0.0,\n    Cons(h, tl) => h + sum(tl)\n  }}\n"));
+                body.push_str(&format!("  let s{n} = match {l} {{\n    Nil => 0.0,\n    Cons(h, tl) => {hval} + sum(tl)\n  }}\n"));
                 floats.push(format!("s{n}"));
                 ops.push("match last".into());
             }
@@ -1658,7 +1688,7 @@ pub fn fb_decode(idx: u64, k: u32) -> Option<Gen> {
             }
             7 => {
                 use_global = true;
-                body.push_str(&format!("  let l{n} = Cons({lastf}, gl)\n"));
+                body.push_str(&format!("  let l{n} = Cons({}, gl)\n", el(&lastf)));
                 lists.push(format!("l{n}"));
                 ops.push("cons onto global list".into());
             }
@@ -1679,6 +1709,20 @@ pub fn fb_decode(idx: u64, k: u32) -> Option<Gen> {
                 lists.push(format!("l{n}"));
                 ops.push("recursive builder".into());
             }
+            12 => {
+                // a longer list that shares the last one as its tail lives in an inner scope only and is never
+                // traversed there; the shared tail is traversed afterwards
+                let l = lists.last()?.clone();
+                body.push_str(&format!("  let u{n} = {{\n    let inner = Cons({}, {l})\n    {lastf} + 1.0\n  }}\n  let s{n} = u{n} + sum({l})\n", el("3.0")));
+                floats.push(format!("s{n}"));
+                ops.push("cons onto last in an inner scope (not traversed there), then sum(last)".into());
+            }
+            13 => {
+                // a value one constructor deep
+                body.push_str(&format!("  let l{n} = Cons({}, Nil)\n", el(&lastf)));
+                lists.push(format!("l{n}"));
+                ops.push("new one-cell list".to_string());
+            }
             _ => {
                 let l = lists.last()?.clone();
                 body.push_str(&format!("  let s{n} = len_acc({l}, 0.0)\n"));
@@ -1688,12 +1732,35 @@ pub fn fb_decode(idx: u64, k: u32) -> Option<Gen> {
         }
     }
     let ret = floats.last().unwrap().clone();
-    let mut src = String::from("type rec List = Nil | Cons(float, List)\nfn sum(list: List) -> float {\n  match list {\n    Nil => 0.0,\n    Cons(head, tail) => head + sum(tail)\n  }\n}\nfn tail_or_nil(list: List) -> List {\n  match list {\n    Nil => Nil,\n    Cons(head, tail) => tail\n  }\n}\nfn build(n: float) -> List {\n  if (n > 0.0) Cons(n, build(n - 1.0)) else Nil\n}\nfn len_acc(list: List, acc: float) -> float {\n  match list {\n    Nil => acc,\n    Cons(head, tail) => len_acc(tail, acc + 1.0)\n  }\n}\n");
+    let mut src = format!(
+        "type rec List = Nil | Cons({elty}, List)\nfn sum(list: List) -> float {{\n  match list {{\n    Nil => 0.0,\n    Cons(h, tail) => {hval} + sum(tail)\n  }}\n}}\nfn tail_or_nil(list: List) -> List {{\n  match list {{\n    Nil => Nil,\n    Cons(h, tail) => tail\n  }}\n}}\nfn build(n: float) -> List {{\n  if (n > 0.0) Cons({}, build(n - 1.0)) else Nil\n}}\nfn len_acc(list: List, acc: float) -> float {{\n  match list {{\n    Nil => acc,\n    Cons(h, tail) => len_acc(tail, acc + 1.0)\n  }}\n}}\n",
+        el("n")
+    );
     if use_global {
-        src.push_str("let gl = Cons(7.0, Cons(8.0, Nil))\n");
+        src.push_str(&format!("let gl = Cons({}, Cons({}, Nil))\n", el("7.0"), el("8.0")));
     }
     src.push_str(&format!("fn dsp(x: float) -> float {{\n{body}  {ret}\n}}\n"));
     Some(Gen { prog: Prog::default(), family: "FB", inputs: 1, ops, ft: None, text: Some(src) })
+}
+
+// ================================================================== FO: tasks whose effects do not commute
+// One shared cell, a doubling task and an incrementing task that also schedules the doubling one; every sequence of
+// up to four scheduling requests (task x time in 1..3) issued by global code. Which of several tasks due at the same
+// sample runs first is not specified by the language, so there is no reference - but the two runtimes must agree (C01).
+pub fn fo_count() -> u64 {
+    seq_count(6, 4)
+}
+pub fn fo_decode(idx: u64) -> Option<Gen> {
+    let digits = seq_decode(idx, 6, 4);
+    let mut src = String::from("let x = 1.0\nfn ta() {\n  x = x * 2.0\n}\nfn tb() {\n  x = x + 1.0\n  ta@(now + 1.0)\n}\n");
+    let mut ops = vec![];
+    for d in digits {
+        let (task, t) = (if d % 2 == 0 { "ta" } else { "tb" }, 1 + d / 2);
+        src.push_str(&format!("{task}@{t}.0\n"));
+        ops.push(format!("{task}@{t}"));
+    }
+    src.push_str("fn dsp() {\n  x\n}\n");
+    Some(Gen { prog: Prog::default(), family: "FO", inputs: 0, ops, ft: None, text: Some(src) })
 }
 
 // ================================================================== FU: closures in unit-returning / value-returning / task frames
